@@ -297,6 +297,10 @@ fn module_symbols(arch: Arch, os: OsKind, m: &ModSpec, adversarial: bool) -> (Ve
     let leaf = crate::common::leaf(&m.debug_file);
     s.push_str(&format!("MODULE {} {} {} {}\n", os.name(), arch.name(), m.breakpad_id(), leaf));
     s.push_str("INFO CODE_ID 5EEDC0DE\n");
+    if chance("dump.sym.own_info_url", 1, 4) {
+        // a file that was published from somebody else's cache carries a source-URL note already
+        s.push_str("INFO URL https://symbols.upstream.example/published/from/another/cache.sym\n");
+    }
     s.push_str("FILE 0 src/main.c\nFILE 1 src/util.c\n");
     if chance("dump.sym.origins", 1, 2) {
         s.push_str("INLINE_ORIGIN 0 inlined_helper\nINLINE_ORIGIN 1 another_inlinee\n");
@@ -786,6 +790,26 @@ pub fn gen_world(opts: &WorldOpts) -> World {
     ];
     let csd = if chance("dump.os.csd", 2, 3) { Some(CSD[ch("dump.os.csd.which", 10) as usize]) } else { None };
     sysinfo.number_of_processors = 4;
+    // the 24-byte CPU union (x86: vendor id, version, feature words; ARM: cpuid and ELF hwcaps;
+    // others: feature bit sets): mostly a plausible x86-style content, otherwise drawn words
+    if chance("dump.cpu_union", 1, 2) {
+        probe("e4.cpu_union_drawn");
+        let mut word = |site: &'static str| -> u32 {
+            match ch(site, 6) {
+                0 => 0,
+                1 => u32::MAX,
+                2 => 0x0038_0000, // bits 19..21
+                3 => 0x8000_0001,
+                _ => simkit::blob("dump.cpu_union.word", 4).iter().fold(0u32, |a, &b| (a << 8) | b as u32),
+            }
+        };
+        sysinfo.cpu = minidump_synth::CpuInfo::X86CpuInfo {
+            vendor_id: [word("dump.cpu_union.w0"), word("dump.cpu_union.w1"), word("dump.cpu_union.w2")],
+            version_information: word("dump.cpu_union.w3"),
+            feature_information: word("dump.cpu_union.w4"),
+            amd_extended_cpu_features: word("dump.cpu_union.w5"),
+        };
+    }
     synth = synth.add_system_info(sysinfo);
 
     let mut threads: Vec<ThreadSpec> = Vec::new();
